@@ -73,6 +73,7 @@ void mv_obs(const char * fmt, ...) __attribute__((format(printf,1,2)));
 void mv_cover(int bit);
 void mv_point(const volatile void * addr, size_t sz);      /* scheduling point before a harness-level shared access */
 void mv_wait_until_changed(const volatile void * addr, size_t sz); /* wait loop helper: yields, marks waiting */
+extern int mv_is_fine;     /* 1 in fine mode (every access a scheduling point): programs with thousands of steps shrink themselves */
 void mv_set_clock_step(long tick_ns, long jump_ns);   /* virtual clock: default / deviation advance per read */
 void mv_spin_until_changed(const volatile void * addr, size_t sz); /* wait loop helper for a thread that keeps its worker (no yield) */
 void mv_quiesce(void);           /* run the other workers until none of them can make progress */
